@@ -7,6 +7,7 @@ import Vipnode.Drv.Store
 import Vipnode.Drv.Pool
 import Vipnode.Drv.Server
 import Vipnode.Drv.Codec
+import Vipnode.Drv.Uri
 open Vipnode Vipnode.Drv
 
 structure DState where
@@ -25,6 +26,7 @@ def stepLine (st : DState) (line : String) : DState × String :=
   | "pool" :: args => let (s, o) := poolStep st.pool args; ({ st with pool := s }, o)
   | "srv" :: args => let (s, o) := srvStep st.srv args; ({ st with srv := s }, o)
   | "codec" :: args => (st, codecStep args)
+  | "uri" :: args => (st, uriStep args)
   | ["noop"] => (st, "noop")
   | [] => (st, "")
   | _ => (st, "bad-op")
